@@ -65,6 +65,8 @@ impl Manager {
         let mut errors = DiagnosticManager::new();
         let cfg = Self::gen_full_cfg(cfg)?;
         Self::run_diagnostics(&cfg, &mut errors);
+        #[cfg(feature = "verif-hooks")]
+        crate::verif_hooks::dispose(&cfg);
         Ok(errors)
     }
 }
